@@ -13,7 +13,7 @@ _TMP = '/dev/shm' if os.path.isdir('/dev/shm') and os.access('/dev/shm', os.W_OK
 
 
 def build_rows(seed, d0, ndays, gappy=False, missing=False, weekend_rows=False, flat=False, p0=None, k=None,
-               subunit=False):
+               subunit=False, vol=1.0):
     """Rows [y, m, d, open, close, adj] for every (kept) day in d0 .. d0+ndays-1; a pure function of its arguments."""
     rnd = random.Random(seed)
     p = p0 if p0 is not None else (rnd.uniform(0.05, 0.9) if subunit else rnd.uniform(5, 500))
@@ -28,8 +28,8 @@ def build_rows(seed, d0, ndays, gappy=False, missing=False, weekend_rows=False, 
         if flat:
             o = c = p
         else:
-            o = p * (1 + rnd.uniform(-.03, .03))
-            c = o * (1 + rnd.uniform(-.04, .04))
+            o = p * (1 + rnd.uniform(-.03, .03) * vol)
+            c = o * (1 + rnd.uniform(-.04, .04) * vol)
             p = c
         if gappy and not wk:
             if gap > 0:
@@ -89,7 +89,7 @@ def symbol_names(draw, lo=1, hi=5):
 
 
 @st.composite
-def dense_markets(draw, names, d0, ndays, lead=7, subunit=False, tie_prone=False):
+def dense_markets(draw, names, d0, ndays, lead=7, subunit=False, tie_prone=False, vol=1.0):
     """Every Monday-Friday from `lead` days before d0 has a complete bar."""
     out = {}
     base_seed = draw(st.integers(0, 2 ** 31))
@@ -98,6 +98,6 @@ def dense_markets(draw, names, d0, ndays, lead=7, subunit=False, tie_prone=False
     for i, n in enumerate(names):
         seed = base_seed if (same and i > 0 and draw(st.booleans())) else base_seed + 7919 * (i + 1)
         flat = tie_prone and draw(st.sampled_from([False, False, True]))
-        out[n] = build_rows(seed, first, ndays + lead + 1, flat=flat,
+        out[n] = build_rows(seed, first, ndays + lead + 1, flat=flat, vol=vol,
                             subunit=subunit and draw(st.sampled_from([False, False, True])))
     return out
